@@ -1,5 +1,6 @@
 pub mod cache;
 pub mod client;
+pub mod server;
 pub mod zone_answers;
 pub mod zonestore;
 
@@ -10,6 +11,7 @@ pub fn scenario_by_name(name: &str) -> Option<Arc<dyn Scenario>> {
     let s: Arc<dyn Scenario> = match name {
         "client" => Arc::new(client::ClientScn),
         "cache" => Arc::new(cache::CacheScn),
+        "server" => Arc::new(server::ServerScn),
         "zone_isolation" => Arc::new(zonestore::IsolationScn),
         "zone_answers" => Arc::new(zone_answers::AnswersScn),
         _ => return None,
@@ -33,6 +35,11 @@ pub fn check_spec(property: &str) -> Option<CheckSpec> {
             property: "C09",
             level: "exploration",
             scenarios: vec![(Arc::new(zonestore::IsolationScn), 20_000, 1_000_000)],
+        },
+        "C16" => CheckSpec {
+            property: "C16",
+            level: "exploration",
+            scenarios: vec![(Arc::new(server::ServerScn), 20_000, 1_000_000)],
         },
         "C20" => CheckSpec {
             property: "C20",
